@@ -66,13 +66,14 @@ func (interp *Interpreter) SingleStepStateTransition(pc ProgramCounter) (ExitRea
 		return exitReason, pc
 	}
 
-	if pc != newPC {
-		// execute branch instruction
+	// A jump or branch names the next instruction itself, which may be its own address
+	// (a loop on one instruction), so the addresses are not compared.
+	if isControlTransfer(byte(opcodeData)) {
 		return exitReason, newPC
 	}
 
 	// iota' = iota + 1 +skip(iota)
-	newPC += skipLength + 1
+	newPC = pc + skipLength + 1
 	// detailed instruction print
 	// logger.Debugf("instr:%s(%d) pc=%d operand=%v gas=%d registers=%x", zeta[opcode(opcodeData)], opcodeData, programCounter, instructionCode[programCounter:programCounter+skipLength+1], interp.Gas, interp.Registers)
 	// logger.Debugf("       gas : %d -> %d", interp.Gas+gasDelta, interp.Gas)
